@@ -82,10 +82,11 @@ static bool in_bound(const ClientSlot &s, const Bytes &key)
 
 static mtbl_iter *open_iter(const mtbl_source *src, int kind, const Bytes &k0, const Bytes &k1)
 {
+	TmpKey a(k0), b(k1);	// gone when the call returns
 	switch (kind) {
-	case 1: return mtbl_source_get(src, (const uint8_t *)k0.data(), k0.size());
-	case 2: return mtbl_source_get_prefix(src, (const uint8_t *)k0.data(), k0.size());
-	case 3: return mtbl_source_get_range(src, (const uint8_t *)k0.data(), k0.size(), (const uint8_t *)k1.data(), k1.size());
+	case 1: return mtbl_source_get(src, a.p, a.n);
+	case 2: return mtbl_source_get_prefix(src, a.p, a.n);
+	case 3: return mtbl_source_get_range(src, a.p, a.n, b.p, b.n);
 	default: return mtbl_source_iter(src);
 	}
 }
@@ -281,6 +282,9 @@ bool Client::op(const Op &o, size_t opi)
 		if (!s.open) return true;
 		Bytes k = resolve(o.arg(1), &s);
 		if (s.kind != 0 && mfmt::cmp(k, s.k0) < 0) { res.probes["seek-below-range-skipped"]++; return true; }
+		// the key buffer handed out by the previous next() is valid up to this very call: an application that seeks "to
+		// the key just returned" may pass that pointer itself rather than a copy of the bytes (every other op: a copy)
+		const bool alias = s.have && (opi & 1) && k.size() == s.kl && (s.kl == 0 || memcmp(k.data(), s.kp, s.kl) == 0);
 		if (!buffers_intact(s)) res.fail("MODEL", tag + "BUFFER-seek", "op " + std::to_string(opi) + ": buffers changed before seek()");
 		had_any_seek = true;
 		if (s.crossed) { had_seek_after_cross = true; res.probes["seek-after-cross"]++; }
@@ -292,7 +296,9 @@ bool Client::op(const Op &o, size_t opi)
 			if (lb == model.end()) res.probes["seek-past-end"]++;
 		}
 		if (s.failed) res.probes["seek-after-failure"]++;
-		mtbl_res r = mtbl_iter_seek(s.it, (const uint8_t *)k.data(), k.size());
+		mtbl_res r;
+		if (alias) { res.probes["seek-with-the-pointer-handed-out-by-next"]++; r = mtbl_iter_seek(s.it, s.kp, s.kl); }
+		else { TmpKey t(k); r = mtbl_iter_seek(s.it, t.p, t.n); }
 		res.ev.u(200 + (r == mtbl_res_success)); res.ev.b(k);
 		s.pos = model.lower_bound(k);
 		s.failed = false; s.crossed = false; s.cur = k;
